@@ -37,7 +37,7 @@ def gen(rng, tier):
     ft = _f(dtype)
     npart = rng.choice([1, 2, 3, 4, 5, 8, 16, rng.randrange(1, 41)])
     box = rng.choice([1.0, 1.0, 8.0, 2000.0, 500.0, 123.456, 3.0])
-    N = rng.choice([0, 1, 2, 3, 5, rng.randrange(0, 40), rng.randrange(0, 201)])
+    N = rng.choice([0, 1, 2, 3, 5, rng.randrange(0, 40), rng.randrange(0, 201)] + ([rng.randrange(200, 1500)] if tier == 'thorough' else []))
     coord = rng.choice([0, 1, 2])
     pool = []
     for k in range(npart + 1):
